@@ -174,7 +174,9 @@ func runEcho(c *hk.Ctx) {
 					endpoint = ts.URL + endpoint
 				}
 			}
-			post := func(body string) { f.Do("POST", endpoint, map[string]string{"Content-Type": "application/json"}, []byte(body)) }
+			post := func(body string) {
+				f.Do("POST", endpoint, map[string]string{"Content-Type": "application/json"}, []byte(body))
+			}
 			post(initBody)
 			post(`{"jsonrpc":"2.0","method":"notifications/initialized"}`)
 			want := 2 // endpoint + initialize answer
